@@ -15,6 +15,24 @@ SRC = os.path.join(VERIF, "witnesses", "src", "lib.rs")
 
 
 def _run(thash):
+    """Serialised per scratch directory: two checks (C10 and C13) may run at the same time."""
+    import fcntl
+    os.makedirs(extract.WORK, exist_ok=True)
+    lockf = open(os.path.join(extract.WORK, "witness%s.lock" % os.environ.get("VERIF_TGT_SUFFIX", "")), "w")
+    fcntl.flock(lockf, fcntl.LOCK_EX)
+    try:
+        res = None
+        for attempt in range(2):
+            res = _run_locked(thash)
+            if res["tests"]:
+                break
+        return res
+    finally:
+        fcntl.flock(lockf, fcntl.LOCK_UN)
+        lockf.close()
+
+
+def _run_locked(thash):
     cache = os.path.join(extract.WORK, "facts", thash, "witness.json")
     if os.path.exists(cache):
         with open(cache) as fh:
@@ -39,9 +57,12 @@ def _run(thash):
     res = {"returncode": r.returncode, "tests": {}, "tail": r.stdout[-1500:]}
     for m in re.finditer(r"^test src/lib\.rs - (\w+) \(line \d+\)( - compile fail)? \.\.\. (\w+)", r.stdout, re.M):
         res["tests"][m.group(1)] = {"compile_fail": bool(m.group(2)), "result": m.group(3)}
-    os.makedirs(os.path.dirname(cache), exist_ok=True)
-    with open(cache, "w") as fh:
-        json.dump(res, fh)
+    if res["tests"]:        # a run that produced no verdicts (killed, disk full) is not cached
+        os.makedirs(os.path.dirname(cache), exist_ok=True)
+        tmp = cache + ".tmp%d" % os.getpid()
+        with open(tmp, "w") as fh:
+            json.dump(res, fh)
+        os.replace(tmp, cache)
     shutil.rmtree(wd, ignore_errors=True)
     return res
 
